@@ -47,7 +47,7 @@ VClasses(f) ==
     ELSE IF f = "saddr_fam" THEN { "two", "ten" }
     ELSE IF f \in NumFields THEN { "zero", "one", "dec", "hex", "neg", "max", "overflow" }
     ELSE IF f = "exit" THEN { "zero", "pos", "neg", "errno_neg", "errno_pos", "min", "overflow" }
-    ELSE IF f = "msgtype" THEN { "num", "name", "high", "overflow" }
+    ELSE IF f = "msgtype" THEN { "num", "name", "high", "overflow", "octal", "hex" }
     ELSE IF f = "arch" THEN ArchNames
     ELSE IF f = "perm" THEN { "r", "w", "x", "a", "rw", "wa", "xr", "rwxa" }
     ELSE { "file", "dir", "socket", "symlink", "char", "block", "fifo" }
